@@ -35,13 +35,18 @@ STATUSES = (101, 100, 102, 103, 199, 200, 201, 204, 206, 226, 299, 300, 301, 302
 REDIRECTS = (301, 302, 303, 307, 308)
 UPGRADE_VARIANTS = {"std": "websocket", "case": "WebSocket", "upper": "WEBSOCKET", "padded": "  websocket  ",
                     "list": "h2c, websocket", "list2": "WebSocket ,foo", "missing": None, "lookalike": "websocketx",
-                    "prefix": "xwebsocket", "other": "h2c", "empty": "", "spaced_token": "web socket"}
+                    "prefix": "xwebsocket", "other": "h2c", "empty": "", "spaced_token": "web socket",
+                    # not ASCII: a Unicode-aware lower() / strip() would turn these into "websocket"
+                    "kelvin": "websoc\u212aet", "nbsp_tail": "websocket\u00a0", "emspace_lead": "\u2003websocket"}
 CONNECTION_VARIANTS = {"std": "Upgrade", "lower": "upgrade", "upper": "UPGRADE", "list": "keep-alive, Upgrade",
                        "list2": "Upgrade,keep-alive", "padded": "   Upgrade ", "missing": None, "close": "close",
-                       "lookalike": "Upgraded", "empty": "", "keepalive": "keep-alive"}
+                       "lookalike": "Upgraded", "empty": "", "keepalive": "keep-alive",
+                       "emspace_tail": "Upgrade\u2003", "nbsp_list": "keep-alive,\u00a0Upgrade"}
 ACCEPT_VARIANTS = ("right", "wrong", "missing", "prev_key", "rfc_sample", "one_char", "truncated", "empty", "key_itself",
                    # the right value with damage a lenient base64 decoder forgives
-                   "trailing_garbage", "inner_junk", "leading_junk", "repeated", "low_bits", "no_padding", "extra_padding")
+                   "trailing_garbage", "inner_junk", "leading_junk", "repeated", "low_bits", "no_padding", "extra_padding",
+                   # the right value garbled with characters that are not ASCII at all
+                   "kelvin_k", "unicode_space_tail")
 RFC_SAMPLE_ACCEPT = "s3pPLMBiTxaQ9kYGzzhZRbK+xOo="
 
 
@@ -124,7 +129,7 @@ class HSPeer(BasePeer):
         for ln in sp.get("first_lines", ()):
             out.append(ln.encode("latin-1"))
         for k, v in hdrs:
-            out.append(f"{k}{sep}{v}".encode("latin-1"))
+            out.append(f"{k}{sep}{v}".encode("utf-8" if not k.isascii() or not all(ord(ch) < 256 for ch in v) or any(0x7f < ord(ch) for ch in v) else "latin-1"))
         return b"\r\n".join(out) + b"\r\n\r\n"
 
     def accept_value(self):
@@ -166,6 +171,11 @@ class HSPeer(BasePeer):
             alpha = "ABCDEFGHIJKLMNOPQRSTUVWXYZabcdefghijklmnopqrstuvwxyz0123456789+/"
             c = right[-2]
             return right[:-2] + alpha[alpha.index(c) ^ 1] + "="
+        if v == "kelvin_k":
+            g = right.replace("k", "\u212a").replace("K", "\u212a")
+            return g if g != right else right[:5] + "\u212a" + right[6:]
+        if v == "unicode_space_tail":
+            return right + "\u2003\u00a0"
         if v == "no_padding":
             return right.rstrip("=")
         if v == "extra_padding":
@@ -268,6 +278,9 @@ def expand(item, seed):
                 yield {"hops": [_final(status=st, accept=a, location=f"ws://{host(1)}/x") if st in REDIRECTS
                                 else _final(status=st, accept=a)] + ([_final()] if st in REDIRECTS else []),
                        "limit": None, "subprotocols": None, "api": "connect", "fault": None, "timeout": 2 * S, "seed": 1}
+        for n in (0, 1):
+            yield {"hops": _chain(n, _final(accept_name="Sec-WebSoc\u212aet-Accept")), "limit": None, "subprotocols": None, "api": "connect",
+                   "fault": None, "timeout": 2 * S, "seed": 1}
         for tok in STATUS_TOKENS:
             for fl in ([], ["Retry-After: 101 seconds"], ["X-Code: 101"]):
                 for n in (0, 1):
@@ -281,6 +294,11 @@ def expand(item, seed):
             for pos in range(0, 150, 7):
                 yield {"hops": _chain(0, _final()), "limit": None, "subprotocols": None, "api": "connect",
                        "fault": {"kind": "eof", "hop": 0, "pos": pos}, "timeout": 2 * S, "seed": 1, "prior": prior}
+            # the new transport cannot even be opened
+            yield {"hops": _chain(0, _final()), "limit": None, "subprotocols": None, "api": "connect", "fault": None, "timeout": 2 * S, "seed": 1,
+                   "prior": prior, "refuse_first": True}
+        yield {"hops": _chain(0, _final()), "limit": None, "subprotocols": None, "api": "connect", "fault": None, "timeout": 2 * S, "seed": 1,
+               "refuse_first": True}
         for offered in (["chat"], ["chat", "superchat"], ["Chat"]):
             for sel in (None, "chat", "CHAT", "superchat", "other", "chat, superchat", ""):
                 yield {"hops": [_final(proto=sel)], "limit": None, "subprotocols": offered, "api": "connect",
@@ -324,7 +342,7 @@ def gen(rng):
     if rng.random() < 0.3:
         final["upgrade_name"] = rng.choice(("upgrade", "UPGRADE", "Upgrade"))
         final["connection_name"] = rng.choice(("connection", "CONNECTION"))
-        final["accept_name"] = rng.choice(("sec-websocket-accept", "SEC-WEBSOCKET-ACCEPT", "Sec-Websocket-Accept"))
+        final["accept_name"] = rng.choice(("sec-websocket-accept", "SEC-WEBSOCKET-ACCEPT", "Sec-Websocket-Accept", "Sec-WebSoc\u212aet-Accept"))
     if rng.random() < 0.3:
         final["shuffle"] = rng.randrange(1, 1000)
     if rng.random() < 0.2:
@@ -344,6 +362,8 @@ def gen(rng):
           "fault": fault, "timeout": 2 * S, "seed": rng.randrange(1 << 30)}
     if sc["api"] == "connect" and rng.random() < 0.15:
         sc["prior"] = rng.choice(("connected", "closed"))
+        if rng.random() < 0.2:
+            sc["refuse_first"] = True
     return sc
 
 
@@ -388,7 +408,8 @@ def run(sc, choices=None):
     registry = []
     for i, h in enumerate(hops):
         w.net.add_host(host(i), [(_rs.AF_INET, addr(i))])
-        w.net.listen(addr(i), 80, (lambda conn, i=i, h=h: HSPeer(w, i, h, fault, registry)))
+        w.net.listen(addr(i), 80, (lambda conn, i=i, h=h: HSPeer(w, i, h, fault, registry)),
+                     outcome="refused" if (i == 0 and sc.get("refuse_first")) else "accept")
     # 'prior': the object under test has already been used for a successful connection to another (correct) server, and
     # is either still connected or has been closed, when connect() is called on it
     w.net.add_host("prior.sim.test", [(_rs.AF_INET, "10.2.0.200")])
@@ -442,6 +463,8 @@ def run(sc, choices=None):
     redirects_followed = max(0, len(contacted) - 1)
     eff_limit = 3 if limit is None else int(limit)
     faulted = bool(last is not None and last.head_sent != last.full_head)
+    if sc.get("refuse_first"):
+        res.probes["transport_refused"] = 1
     valid = False
     why_invalid = "no response"
     if last is not None and not faulted:
@@ -457,6 +480,8 @@ def run(sc, choices=None):
             why_invalid = "Upgrade header does not announce websocket"
         elif not _good(CONNECTION_VARIANTS, sp.get("connection", "std"), "upgrade"):
             why_invalid = "Connection header does not announce upgrade"
+        elif not sp.get("accept_name", "Sec-WebSocket-Accept").isascii():
+            why_invalid = "no Sec-WebSocket-Accept header (a name with U+212A in it is another name)"
         elif last.accept_value() != R.accept_for(last.key or ""):
             why_invalid = "accept value not derived from this request's key"
         elif offered and (sel is None or sel.lower() not in [o.lower() for o in offered]):
@@ -491,6 +516,9 @@ def run(sc, choices=None):
             res.violate("valid_upgrade_rejected", ctx, f"valid upgrade but call raised {outcome[1]}")
         if connected or has_sock:
             res.violate("failed_connect_leaves_state", ctx, f"after {outcome[1]}: connected={connected} transport={has_sock}")
+        old_open = [s_.fd for s_ in w.net.sockets if s_.fd in before and not s_.closed]
+        if prior == "connected" and old_open and not (connected or has_sock):
+            res.violate("failed_connect_leaves_state", ctx, f"after {outcome[1]}: the object is unconnected but the transport of its earlier connection is still open {old_open}")
         if open_socks:
             res.violate("failed_connect_leaks_transport", ctx, f"after {outcome[1]}: sockets still open {open_socks}")
         if not (outcome[2] or outcome[3]):
